@@ -72,6 +72,12 @@ func NewRolloutScn(c *vs.Case, o RolloutOpts) *Scn {
 		for i := 0; i < n; i++ {
 			tpl.Names = append(tpl.Names, fmt.Sprintf("w%d", i))
 		}
+		if !o.Small && c.Bool() {
+			// hook order need not be alphabetical
+			for i, j := 0, len(tpl.Names)-1; i < j; i, j = i+1, j-1 {
+				tpl.Names[i], tpl.Names[j] = tpl.Names[j], tpl.Names[i]
+			}
+		}
 	}
 	s.Prog = HookProgram{Children: []ChildTpl{tpl}}
 	if o.Small {
